@@ -1048,18 +1048,275 @@ def add_sources(case):
 
 
 def gen_case_c06(r):
-    """the stream of C06: that of gen_case, with 7 % of it aimed at the ways to come by the Context / message / broker and
-    4 % of the rest carrying that dimension thinly.  (C12 keeps gen_case: its statement is about executions that reach
+    """the stream of C06: that of gen_case, with 7 % of it aimed at the ways to come by the Context / message / broker,
+    6 % at argument objects the producer keeps, 5 % at messages that hold one object at several positions (iso10) and
+    4 % / 4 % / 3 % of the rest carrying those dimensions thinly.  (C12 keeps gen_case: its statement is about executions that reach
     their task function or fail in a scripted dependency.)"""
     x = r.random()
     if x < .07:
         return add_excs(add_path(r, gen_source_case(r)))
     if x < .13:
         return add_excs(gen_producer_case(r))
+    if x < .18:
+        return add_excs(gen_refs_case(r))
     case = gen_case(r)
-    if x < .17:
+    if x < .22:
         case = add_sources(case)
-    return add_producer(case)
+    return add_refs(add_producer(case))
+
+
+# --------------------------------------------------------------------------- one object at several positions of a message (iso10)
+# shape -> annotation kinds (deps_driver.ANNS) of the parameter that takes it
+REFS_SHAPES = {
+    "str2": ("dany", "any"),            # {"owner": u, "editor": u}: one string twice, depth 1
+    "lstr2": ("lany", "any"),           # [path, path]
+    "str3deep": ("dany", "any"),        # the same string three times at depth 2 (inside a nested dict and a nested list)
+    "list2": ("dany", "any"),           # one LIST twice at depth 1 (and the string in it)
+    "dict2": ("lany", "any"),           # one DICT twice at depth 1
+    "deep2": ("dany", "any"),           # one list twice at depth 2
+    "tiny": ("dany", "lany", "any"),    # one-character / empty strings: one object whoever builds them
+    "keyval": ("dany", "any"),          # a key of the dict that is also a value of it
+    "box2": ("lany", "any"),            # one {"n": .., "items": [..]} twice (a dataclass instance on the sending side with `wrap`)
+    "tags2": ("csv",),                  # Tags(tags=[u, u])
+    "top": ("str",),                    # depth 0: the string argument is also a label's value / the task id
+}
+REFS_SHAPE_POOL = ("str2", "str2", "str2", "lstr2", "lstr2", "str3deep", "str3deep", "list2", "dict2", "deep2", "tiny", "keyval",
+                   "box2", "tags2", "top", "top")
+
+
+def refs_value(shape, kind, salt, v):
+    """variant v of the value a message of that shape carries for its validated parameter (JSON-able, contains the case's
+    salt, no negative numbers and no "x<i>" names - those are the executions' write marks).  Messages of one shape with
+    different v are laid out alike and differ in every string."""
+    u = "user%d@s%d" % (v, salt)
+    p = "s3://bucket-%d/s%d/report.csv" % (v, salt)
+    c = "abcdefgh"[v % 8]
+    if shape == "str2":
+        return {"owner": u, "editor": u, "n": 10 + v}
+    if shape == "lstr2":
+        return [p, p, 10 + v]
+    if shape == "str3deep":
+        return {"acl": {"owner": u, "editor": u}, "log": [u, 10 + v]}
+    if shape == "list2":
+        return {"src": [p, 10 + v], "dst": [p, 10 + v]}
+    if shape == "dict2":
+        return [{"k": p, "n": 10 + v}, {"k": p, "n": 10 + v}, 1]
+    if shape == "deep2":
+        return {"a": {"rows": [p, 1]}, "b": {"rows": [p, 1]}, "n": 10 + v}
+    if shape == "tiny":
+        return [c, c, "", "", salt] if kind == "lany" else {"a": c, "b": c, "e": "", "f": "", "s": salt}
+    if shape == "keyval":
+        return {u: 10 + v, "last": u}
+    if shape == "box2":
+        return [{"n": salt, "items": [10 + v]}, {"n": salt, "items": [10 + v]}, u, u]
+    if shape == "tags2":
+        return {"tags": [u, u, "s%d" % salt]}
+    if shape == "top":
+        return u
+    raise ValueError(shape)
+
+
+def _first_str(v):
+    """the first string value (longer than one character) inside a raw value, depth first; None when there is none"""
+    if isinstance(v, str):
+        return v if len(v) > 1 else None
+    for x in (list(v.values()) if isinstance(v, dict) else v if isinstance(v, list) else []):
+        got = _first_str(x)
+        if got is not None:
+            return got
+    return None
+
+
+def give_refs(r, case, thin=False):
+    """the messages of a case get a value for the validated parameter of their task in which equal parts occur at several
+    positions, and `refs`: whether those parts are ONE object when the message is handed to the sending side (`same`: built
+    from one variable; `intern`: equal strings built separately and interned; `equal`: objects of their own - the control
+    group).  `fanout`: every message its own variant (same layout, every string different), `same`: all carry one value,
+    `mixed`.  Depth 0: some messages also carry a label whose value is the string inside the argument, a label KEY that is
+    that string, the task id as a label value (`tids` + `slabels`)."""
+    salt = case.get("salt") or r.randrange(1, 10 ** 6)
+    case["salt"] = salt
+    shapes = []
+    for t in case["tasks"]:
+        shape = shapes[0] if shapes and r.random() < .5 else r.choice(REFS_SHAPE_POOL)
+        shapes.append(shape)
+        t["val"] = r.choice(REFS_SHAPES[shape])
+    mode = r.choice(["fanout", "fanout", "fanout", "fanout", "same", "mixed"])
+    how0 = r.choice(["same", "same", "same", "same", "intern", "intern", "equal"])
+    wrap0 = r.choice([None, None, None, "tuple", "box"])
+    by0 = r.choice(["pos", "pos", "kw"])
+    top = r.choice(["none", "none", "label", "label", "key", "tid", "tid"])
+    for i, m in enumerate(case["msgs"]):
+        shape, kind = shapes[m["task"]], case["tasks"][m["task"]]["val"]
+        v = i if mode == "fanout" else 0 if mode == "same" else r.choice([0, i, i])
+        m["raw"] = refs_value(shape, kind, salt, v)
+        m["by"] = by0 if r.random() < .8 else r.choice(["pos", "kw"])
+        refs = {"how": how0 if r.random() < .85 else r.choice(["same", "intern", "equal"])}
+        if wrap0 and r.random() < .8:
+            refs["wrap"] = wrap0
+        m["refs"] = refs
+        s = _first_str(m["raw"])
+        if s is None or top == "none" or (thin and top == "tid"):
+            continue
+        if top == "label":
+            m["slabels"] = {"origin": s}
+        elif top == "key":
+            m["slabels"] = {s: "owner", "origin": s} if r.random() < .5 else {s: "owner"}
+        else:
+            m["tids"] = "job-%d-s%d" % (i, salt)
+            m["slabels"] = {"parent": m["tids"]}
+            if shape == "top" and r.random() < .6:
+                m["raw"] = m["tids"]        # ... and the argument itself is the task id
+            elif r.random() < .4:
+                m["slabels"]["origin"] = s
+    return case
+
+
+def gen_refs_case(r):
+    """aimed at what the (de)serialization of a message could make executions share when a message holds ONE object at
+    several positions - kiq(path, path), {"owner": uid, "editor": uid} built from one variable, a label that repeats the
+    task id: 2-5 messages of the same layout whose strings all differ, sent one after the other or in a burst through ONE
+    broker / formatter / serializer object (pickle, a JSONSerializer set by hand, the broker's default; before or after
+    the Receiver is built) by the real sending side - the task's kicker, or TaskiqMessage + the broker's formatter - and
+    decoded by one worker; part of the executions writing their marks into what they received.  What an execution holds -
+    parameter, Context.message of every dependency and of the task function, the labels of the stored result - must be
+    what ITS message carried at every position."""
+    nn = r.choice([1, 2, 2, 3, 3])
+    nodes = gen_graph(r, nn)
+    for n in nodes:
+        n["ctx"] = n["ctx"] or r.random() < .8
+    tasks = []
+    for t in range(r.choice([1, 1, 1, 2])):
+        # (mostly use_cache=False edges: the resolver sub-contexts of overlapping executions stay part of the picture)
+        deps = [[r.randrange(nn), r.random() < .35] for _ in range(r.choice([1, 1, 2]))]
+        tasks.append({"deps": deps, "ctx": r.random() < .9, "sync": r.random() < .1})
+    case = {"nodes": nodes, "tasks": tasks, "msgs": [], "propagate": r.random() < .5,
+            "ack": r.choice(["when_received", "when_executed", "when_saved", "when_saved"]),
+            "middleware": r.random() < .5, "via_inmemory": r.random() < .4, "user_ctx": r.choice([None, None, 7])}
+    k = r.choice([2, 2, 3, 3, 4, 5])
+    spacing = r.choice(["burst", "burst", "staggered", "staggered", "staggered", "sequential"])
+    main_task = r.randrange(len(tasks))
+    for i in range(k):
+        t = main_task if r.random() < .8 else r.randrange(len(tasks))
+        start = 0 if spacing == "burst" else i * 400000 if spacing == "sequential" else r.choice([0, 0, 2000, 5000, 10000])
+        m = {"task": t, "start": start, "pauses": [r.choice(PAUSES) for _ in range(r.choice([1, 2, 3]))],
+             "dur": [] if tasks[t]["sync"] else [r.choice([0, 1000, 5000, 12000, 30000]) for _ in range(r.choice([1, 1, 2]))],
+             "ackable": r.choice(["sync", "sync", "async", "none"]), "kw": r.random() < .7,
+             "outcome": r.choice(["return", "return", "return", "raise", "noresult"])}
+        if r.random() < .1:
+            m["nolabels"] = True
+        if r.random() < .2:
+            m["save_pause"] = r.choice([0, 5000, 15000])
+        case["msgs"].append(m)
+    give_refs(r, case)
+    if r.random() < .25:
+        case["validate"] = False
+    x = r.random()
+    if x < .55:
+        path = {"kind": "inmemory", "life": list(r.choice(LIVES)), "send": "kicker" if x < .35 else "kick"}
+        if r.random() < .3:
+            path["max_async_tasks"] = r.choice([1, 2, 100])
+        if r.random() < .25:
+            path["await_inplace"] = True
+        case["path"] = path
+        case["ack"] = "when_saved"
+        for m in case["msgs"]:
+            m["ackable"] = "none"
+        if "shutdown" in path["life"]:
+            for t in tasks:
+                t["sync"] = False
+            for m in case["msgs"]:
+                if not m.get("dur"):
+                    m["dur"] = [r.choice([1000, 5000])]
+    else:
+        add_path(r, case)
+    x = r.random()
+    if x < .25:
+        case["fmt"] = "proxy" if x < .15 else "json"
+    x = r.random()
+    if x < .75:
+        case["ser"] = "pickle" if x < .6 else "json"
+        if r.random() < .3:
+            case["ser_late"] = True
+    for m in case["msgs"]:
+        if r.random() < .45:
+            gen_muts(r, case, m, focus=True)
+    return case
+
+
+def add_refs(case, p=.03):
+    """the same dimension, thinly, over cases of every other kind that have no validated parameter and no hand-written
+    bytes: the tasks get a parameter, the messages values with repeated parts (and `refs`).  Drawn from a generator of its own."""
+    rr = case_rng(case, "refs")
+    if rr.random() >= p:
+        return case
+    if any(t.get("val") for t in case["tasks"]) or has_wire_strings(case) \
+            or any(k in m for m in case["msgs"] for k in ("content", "raw", "tid")):
+        return case
+    give_refs(rr, case, thin=True)
+    x = rr.random()
+    if x < .7:
+        case["ser"] = "pickle" if x < .55 else "json"
+    return case
+
+
+def refs_profile(case, ex):
+    """evidence keys: messages that hold one object at several positions - what the driver really built (its own count of
+    objects referenced twice or more), through which serializer / sending side they went, and whether the worker had
+    already decoded a message of the same layout with other strings (the configuration in which a decoder that keeps state
+    between messages shows)"""
+    held = [d for d in ex if d.msg.get("refs") is not None]
+    if not held:
+        return ["repeated references: none asked for"]
+    ser = {"pickle": "PickleSerializer", "json": "JSONSerializer set by hand"}.get(case.get("ser"), "the broker's default serializer")
+    if case.get("ser") and case.get("ser_late"):
+        ser += " (set after the Receiver was built)"
+    fmt = {"proxy": "ProxyFormatter set by hand", "json": "JSONFormatter (no serializer)"}.get(case.get("fmt"), "default formatter")
+    path = case.get("path") or {}
+    how = ("the task's kicker" if path.get("kind") == "inmemory" and path.get("send") == "kicker" else
+           "TaskiqMessage + formatter, kick()" if path.get("kind") == "inmemory" else
+           "TaskiqMessage + formatter, handed to the receiver (%s)" % (path.get("kind") or "direct"))
+    keys = []
+    for d in held:
+        refs = d.msg["refs"]
+        keys.append("repeated references: message sent through %s; %s, %s" % (how, ser, fmt))
+        keys.append("repeated references: equal parts are %s%s" % (
+            {"same": "ONE object (built from one variable)", "intern": "interned strings (built separately)",
+             "equal": "objects of their own (control)"}[refs.get("how", "same")],
+            ", nested %s on the sending side" % {"tuple": "lists are tuples", "box": "n/items dicts are dataclass instances"}[refs["wrap"]]
+            if refs.get("wrap") else ""))
+        got = d.aliased or {}
+        if not got:
+            keys.append("repeated references: message built with no object at two positions")
+        for kind, n in sorted(got.items()):
+            keys.append("repeated references: message built with a %s at two or more positions" % kind)
+        v = d.val
+        if v is not None:
+            keys.append("repeated references: argument of a parameter annotated %s, validate_params=%s" % (
+                v["kind"], bool(case.get("validate", True))))
+        sl = d.msg.get("slabels") or {}
+        s = _first_str(d.msg.get("raw")) if d.msg.get("raw") is not None else None
+        if "tids" in d.msg and d.msg["tids"] in sl.values():
+            keys.append("repeated references: depth 0, the task id is also a label value%s" % (
+                " and the argument" if d.msg.get("raw") == d.msg["tids"] else ""))
+        if s is not None and s in sl.values():
+            keys.append("repeated references: depth 0, a label value is also (in) the argument")
+        if s is not None and s in sl:
+            keys.append("repeated references: depth 0, a label key is also (in) the argument")
+    seen = set()
+    for a in held:
+        for b in held:
+            if a.i == b.i or a.cb_start_at is None or b.cb_start_at is None or a.cb_start_at > b.cb_start_at:
+                continue
+            if a.cb_start_at == b.cb_start_at and a.i > b.i:
+                continue
+            if a.msg["task"] != b.msg["task"] or not (b.aliased or {}):
+                continue
+            differ = C.canon(a.msg["raw"]) != C.canon(b.msg["raw"])
+            over = (None not in (a.cb_done_at, b.cb_done_at) and a.cb_start_at < b.cb_done_at and b.cb_start_at < a.cb_done_at)
+            seen.add("repeated references: a message with shared objects decoded after another of the same layout with %s, %s" % (
+                "different strings" if differ else "the same value", "executions overlapping" if over else "one after the other"))
+    return keys + sorted(seen)
 
 
 # --------------------------------------------------------------------------- the producer's side: argument objects it keeps
@@ -1713,6 +1970,7 @@ def finish(case, d, log):
     d.raised = None           # (class name, "task" / "dep") of the object the task function / the failing dependency raised
     d.kicked_at = d.prod_after_at = None    # a message kicked with an object the producer keeps: when, and when it used it again
     d.kicked = None           # ... and what the message held the moment it was serialized (the producer's own look at it)
+    d.aliased = None          # `refs`: the driver's count of objects the built message referenced from two or more positions
     ctxnum = {cid: k for k, cid in enumerate(d.ctxs)}
     d.ctxnum = ctxnum
     ack = COQ_ACK[case.get("ack", "when_saved")]
@@ -1730,6 +1988,8 @@ def finish(case, d, log):
             d.cb_start_at = g
         elif k == "kicked":
             d.kicked_at, d.kicked = g, e[2]
+        elif k == "aliased":
+            d.aliased = e[2]
         elif k == "prod_after":
             d.prod_after_at = g
         elif k == "mut":
@@ -2067,6 +2327,7 @@ def sharing_profile(case, ex):
     keys += exc_profile(case, ex)
     keys += source_profile(case, ex)
     keys += producer_profile(case, ex)
+    keys += refs_profile(case, ex)
     tids = {}
     for d in ex:
         tids.setdefault(d.sent["tid"], []).append(d)
@@ -2340,14 +2601,23 @@ def reductions(case):
                 variant(lambda c, i=i: c["msgs"][i]["pobj"].pop("delay"))
             if m["pobj"]["obj"] >= 2:
                 variant(lambda c, i=i: c["msgs"][i]["pobj"].update(obj=c["msgs"][i]["pobj"]["obj"] - 2))
-    for key in ("fmt", "ser", "prod"):
+    for key in ("fmt", "ser", "prod", "ser_late"):
         if case.get(key):
             variant(lambda c, key=key: c.pop(key))
+    for i, m in enumerate(case["msgs"]):
+        refs = m.get("refs")
+        if refs is not None:
+            # plain lists / dicts on the sending side; one object wherever parts are equal (the plain spelling of sharing)
+            if refs.get("wrap"):
+                variant(lambda c, i=i: c["msgs"][i]["refs"].pop("wrap"))
+            if refs.get("how", "same") != "same":
+                variant(lambda c, i=i: c["msgs"][i]["refs"].update(how="same"))
     if any(m.get("pobj") is not None for m in case["msgs"]):
         variant(lambda c: [m.pop("pobj", None) for m in c["msgs"]] and None)
     def odd_needs_raw(c):
         # messages carrying unusual strings stay hand-written (see add_wire)
-        return not (has_odd_strings(c) and any("wire" not in m for m in c["msgs"]))
+        # (messages with `refs` go through the real sending side: their strings are ordinary ones)
+        return not (has_odd_strings(c) and any("wire" not in m and "refs" not in m for m in c["msgs"]))
 
     if any("wire" in m for m in case["msgs"]):
         variant(lambda c: ([m.pop("wire", None) for m in c["msgs"]] and None) or odd_needs_raw(c))
